@@ -1,6 +1,7 @@
 #!/bin/bash
 # usage: tools/try_seed.sh <patch.diff> <check ids...>   applies the patch to /repo, runs the quick checks, restores /repo
 P=$1; shift
+exec 9>/tmp/repo.lock; flock 9   # the thorough sweep builds under the same lock
 cd /repo && git status --short | grep -q . && { echo "repo not clean"; exit 2; }
 git -C /repo apply "$P" || { echo "patch does not apply"; exit 2; }
 for c in "$@"; do
